@@ -59,6 +59,7 @@ Inductive fevent :=
 | FEPut (t : tid) (fail : bool)
 | FEPutLost (t : tid)
 | FEDel (t : tid) (fail : bool)
+| FEDelLost (t : tid)
 | FENotify (t : tid)
 | FESwap (t : tid)
 | FEDone (t : tid)
@@ -182,6 +183,18 @@ Definition fstep (skipgc : bool) (s : fstate) (e : fevent) : option fstate :=
             Some (fnotify (fset_reg s r' (filter (fun x => negb (index_eqb x oi)) (f_store s))) t ROk)
       | _ => None
       end
+  | FEDelLost t =>
+      (* the DELETE takes effect, the client sees an error *)
+      match f_pcs s t with
+      | FNeedDel oi ap =>
+          let r' := match f_reg s with
+                    | Some cur => if index_eqb cur oi then None else Some cur
+                    | None => None
+                    end in
+          Some (fnotify (fset_reg s r' (filter (fun x => negb (index_eqb x oi)) (f_store s))) t
+                        (if ap then RIdxDel else RLost))
+      | _ => None
+      end
   | FENotify t =>
       match f_pcs s t with
       | FNotify r k =>
@@ -300,6 +313,7 @@ Definition fvis_step (sg : bool) (changes : list change) (acc : fstate * list ob
         let log1 := match f_pcs s t with FNeedPut nw _ => log ++ [OPut t nw] | _ => log end in
         match fstep sg s (FEPutLost t) with Some s1 => Some (s1, log1) | None => None end
     | VD t f => match fstep sg s (FEDel t f) with Some s1 => Some (s1, log) | None => None end
+    | VK t => match fstep sg s (FEDelLost t) with Some s1 => Some (s1, log) | None => None end
     | VX => match fstep sg s FEExtDrop with Some s1 => Some (s1, log) | None => None end
     end in
   match r with
